@@ -274,6 +274,13 @@ def freeze (E : Env) (onlySeal : Bool) : M Obj Unit := fun o =>
 
 /-! ## §15.4.4 Array.prototype -/
 
+/-- min(max(r, 0), m) — §15.4.4.12 step 7 -/
+def clamp0 (r : IntInf) (m : Nat) : Nat :=
+  match r with
+  | .ninf => 0
+  | .pinf => m
+  | .fin i => if i < 0 then 0 else if i < m then i.toNat else m
+
 /-- §15.4.4.10 steps 5–8: a relative index clamped into [0, len] -/
 def relIndex (r : IntInf) (len : Nat) : Nat :=
   match r with
@@ -346,6 +353,16 @@ def slice (args : List Val) : M σ Ret := fun s =>
   .ok (Ret.arr ((List.range (final - k)).map fun n =>                -- 9, 10
     if O.has s (k + n) then some (O.get s (k + n)) else none)) s
 
+/-- §15.4.4.14 steps 6–8: where the search starts (`none` = return −1 at once) -/
+def indexOfStart (n : IntInf) (len : Nat) : Option Nat :=
+  match n with
+  | .pinf => none                                                                -- 6: n ≥ len
+  | .ninf => some 0                                                              -- 8: len − |n| < 0 ↦ 0
+  | .fin i =>
+    if i ≥ len then none                                                         -- 6
+    else if i ≥ 0 then some i.toNat                                              -- 7
+    else if (len : Int) + i < 0 then some 0 else some ((len : Int) + i).toNat    -- 8
+
 /-- §15.4.4.14 indexOf -/
 def indexOf (args : List Val) : M σ Ret := fun s =>
   let searchElement := argAt args 0
@@ -353,15 +370,7 @@ def indexOf (args : List Val) : M σ Ret := fun s =>
   if len = 0 then .ok (Ret.val (.int (-1))) s                                        -- 4
   else
     let n : IntInf := if args.length > 1 then toInteger E (argAt args 1) else .fin 0 -- 5
-    let start : Option Nat :=
-      match n with
-      | .pinf => none                                                                -- 6: n ≥ len
-      | .ninf => some 0                                                              -- 8: len − |n| < 0 ↦ 0
-      | .fin i =>
-        if i ≥ len then none                                                         -- 6
-        else if i ≥ 0 then some i.toNat                                              -- 7
-        else if (len : Int) + i < 0 then some 0 else some ((len : Int) + i).toNat    -- 8
-    match start with
+    match indexOfStart n len with
     | none => .ok (Ret.val (.int (-1))) s
     | some k =>
       match (List.range (len - k)).find? (fun j =>                                   -- 9
@@ -419,11 +428,7 @@ def splice (args : List Val) : M σ Ret := fun s =>
   let len := O.len s
   let relativeStart := toInteger E (argAt args 0)                                    -- 5
   let actualStart := relIndex relativeStart len                                      -- 6
-  let actualDeleteCount : Nat :=                                                     -- 7: min(max(ToInteger(deleteCount),0), len − actualStart)
-    match toInteger E (argAt args 1) with
-    | .ninf => 0
-    | .pinf => len - actualStart
-    | .fin i => if i < 0 then 0 else if i < (len - actualStart : Nat) then i.toNat else len - actualStart
+  let actualDeleteCount : Nat := clamp0 (toInteger E (argAt args 1)) (len - actualStart)   -- 7
   let a : List (Option Val) := (List.range actualDeleteCount).map fun k =>           -- 8, 9
     if O.has s (actualStart + k) then some (O.get s (actualStart + k)) else none
   let items := args.drop 2                                                           -- 10
@@ -439,6 +444,15 @@ def splice (args : List Val) : M σ Ret := fun s =>
     O.putLen (.int ((len - actualDeleteCount + itemCount : Nat) : Int))              -- 16
     pure (Ret.arr a)) s                                                              -- 17
 
+/-- §15.4.4.15 steps 6–7 as k + 1, the number of candidate positions 0 … k -/
+def lastIndexOfCount (n : IntInf) (len : Nat) : Nat :=
+  match n with
+  | .pinf => len                                                                 -- 6: min(n, len − 1)
+  | .ninf => 0                                                                   -- 7: len − |n| < 0
+  | .fin i =>
+    if i ≥ 0 then (if i < (len : Int) - 1 then i.toNat + 1 else len)
+    else ((len : Int) + i + 1).toNat
+
 /-- §15.4.4.15 lastIndexOf -/
 def lastIndexOf (args : List Val) : M σ Ret := fun s =>
   let searchElement := argAt args 0
@@ -446,16 +460,8 @@ def lastIndexOf (args : List Val) : M σ Ret := fun s =>
   if len = 0 then .ok (Ret.val (.int (-1))) s                                        -- 4
   else
     let n : IntInf := if args.length > 1 then toInteger E (argAt args 1) else .fin ((len : Int) - 1)   -- 5
-    let count : Nat :=                                                               -- k + 1
-      match n with
-      | .pinf => len                                                                 -- 6: min(n, len − 1)
-      | .ninf => 0                                                                   -- 7: len − |n| < 0
-      | .fin i =>
-        if i ≥ 0 then (if i < (len : Int) - 1 then i.toNat + 1 else len)
-        else ((len : Int) + i + 1).toNat
-    match searchDown (fun k => O.has s k && strictEq E searchElement (O.get s k)) count with   -- 8
-    | some k => .ok (Ret.val (.int k)) s
-    | none => .ok (Ret.val (.int (-1))) s                                            -- 9
+    let count : Nat := lastIndexOfCount n len                                        -- k + 1
+    .ok (indexRet (searchDown (fun k => O.has s k && strictEq E searchElement (O.get s k)) count)) s   -- 8, 9
 
 /-- §15.4.4.16 every -/
 def every (callable : Bool) : M σ Ret := fun s =>
